@@ -61,6 +61,27 @@ func c05r1(r *R) {
 			} else {
 				o.OK("every path from the name lookup passes Out.Header.Set/Del(name)")
 			}
+			// every configured injector is visited: the site sits in a range loop over the handler's injector list that
+			// is left only when the list is exhausted (no return, break or panic inside the loop)
+			o2 := r.Ob("C05.R1", "all-injectors-visited:"+funcName(fn)).AtI(site)
+			loopG := ""
+			for _, g := range c.guardStrs(site.Block()) {
+				if strings.HasPrefix(g, "+((1 + phi((1 + phi@)|-1)) < builtin.len(p") && strings.HasSuffix(g, ".HeaderInjectors))") {
+					loopG = g
+				}
+			}
+			if o2.Check(loopG != "", "the name lookup is not inside `for range <handler>.HeaderInjectors`; guards %v", c.guardStrs(site.Block())) {
+				eachInstr(fn, func(i ssa.Instruction) {
+					_, isPanic := i.(*ssa.Panic)
+					if !isReturn(i) && !isPanic {
+						return
+					}
+					if fn.Recover != nil && i.Block() == fn.Recover {
+						return
+					}
+					o2.AtI(i).Check(hasGuard(c.guardStrs(i.Block()), "-"+loopG[1:]), "%s leaves the injector loop before the list is exhausted (guards %v): injectors after this point are neither set nor stripped for this request", shortInstr(i), c.guardStrs(i.Block()))
+				})
+			}
 		}
 	}
 	r.Ob("C05.R1", "instances").Check(n >= 1, "no GetHeaderName call site on the forward path found (expected >= 1)")
@@ -127,7 +148,12 @@ func canonicalMIME(s string) string {
 }
 
 // R3: provenance of the injected value.
-func c05r3(r *R) {
+func c05r3(r *R) { injectedValueProvenance(r, "C05.R3") }
+
+// injectedValueProvenance: the value set on the outbound request is what the injector computes for
+// this request, and the stock injector computes it afresh from this request's connection record
+// (no value remembered from an earlier request or another connection).
+func injectedValueProvenance(r *R, rule string) {
 	c := r.C
 	n := 0
 	for _, fn := range c.FuncsIn(appPkgs...) {
@@ -140,7 +166,7 @@ func c05r3(r *R) {
 				continue
 			}
 			n++
-			o := r.Ob("C05.R3", "set-value:"+funcName(fn)).AtI(site)
+			o := r.Ob(rule, "set-value:"+funcName(fn)).AtI(site)
 			nameE, valE := c.Expr(a[1]), c.Expr(a[2])
 			if !strings.HasPrefix(nameE, nGetHeaderName+"(") {
 				o.Fail("header name passed to Set is not the result of GetHeaderName(): %s", nameE)
@@ -158,12 +184,12 @@ func c05r3(r *R) {
 			o.OK("value = GetHeaderValue(same injector, In)#0 under err == nil")
 		}
 	}
-	r.Ob("C05.R3", "instances").Check(n >= 1, "no Out.Header.Set site found")
+	r.Ob(rule, "instances").Check(n >= 1, "no Out.Header.Set site found")
 
 	// FingerprintHeaderInjector.GetHeaderValue returns the FingerprintFunc's result on this request's metadata
 	gv := c.Method("pkg/fingerprint", "FingerprintHeaderInjector", "GetHeaderValue")
 	r.need(gv != nil, "fingerprint.FingerprintHeaderInjector.GetHeaderValue not found")
-	o := r.Ob("C05.R3", "injector-value:"+funcName(gv)).At(gv.Pos())
+	o := r.Ob(rule, "injector-value:"+funcName(gv)).At(gv.Pos())
 	nret := 0
 	eachInstr(gv, func(i ssa.Instruction) {
 		ret, ok := i.(*ssa.Return)
@@ -208,7 +234,7 @@ func c05r4(r *R) {
 				if o.Check(tf != nil, "cannot resolve the function assigned to Rewrite") {
 					found := false
 					for _, g := range resolveBound(tf) {
-						if len(callsIn(g, nGetHeaderName)) > 0 {
+						if g.Blocks != nil && mustPassLoopOver(c, g, "HeaderInjectors", 3) {
 							found = true
 						}
 					}
@@ -304,4 +330,33 @@ func c05r5(r *R) {
 	}
 	r.assume("S4: http.Header.Set/Del canonicalise the key; Set replaces all values")
 	r.assume("S3: httputil.ReverseProxy with Rewrite clones the inbound header, strips hop-by-hop and Forwarded/X-Forwarded-*, then calls Rewrite")
+}
+
+// mustPassLoopOver: every entry→return path of fn evaluates `len(<x>.<field>)` (the entry of a range loop over that
+// field) itself or through a same-module callee that does, to the given depth. A helper extracted from the hook
+// still counts; a conditional call to it does not.
+func mustPassLoopOver(c *Ctx, fn *ssa.Function, field string, depth int) bool {
+	ev := func(i ssa.Instruction) int {
+		if v, ok := i.(ssa.Value); ok {
+			if e := c.Expr(v); strings.HasPrefix(e, "builtin.len(") && strings.HasSuffix(e, "."+field+")") {
+				if call, ok := i.(*ssa.Call); ok && call.Common().Value.Name() == "len" {
+					return 1
+				}
+			}
+		}
+		if depth > 0 {
+			if cc := callOf(i); cc != nil {
+				if _, isGo := i.(*ssa.Go); !isGo {
+					if g := staticCallee(cc); g != nil && g.Blocks != nil && g.Pkg != nil && fn.Pkg != nil && g.Pkg == fn.Pkg {
+						if mustPassLoopOver(c, g, field, depth-1) {
+							return 1
+						}
+					}
+				}
+			}
+		}
+		return 0
+	}
+	res := countOnPaths(fn, ev)
+	return res.Min >= 1
 }
